@@ -1203,6 +1203,9 @@ class TaskPool:
         for itask in self.get_tasks():
             # Recreate data store elements from task pool.
             self.create_data_store_elements(itask)
+            if itask.state.is_queued:
+                # Put queued tasks back in their (new) queue.
+                self.task_queue_mgr.push_task(itask)
 
     def set_stop_point(self, stop_point: 'PointBase') -> bool:
         """Set the workflow stop cycle point.
